@@ -47,6 +47,7 @@ type Field struct {
 	Ptr   bool   `json:"ptr,omitempty"`   // Go field / value is a pointer
 	Maybe bool   `json:"maybe,omitempty"` // tagged `yae:",maybe"` (implies Ptr)
 	Nil   bool   `json:"nil,omitempty"`   // pointer is nil (V is then only the static prototype)
+	NilC  bool   `json:"nil_c,omitempty"` // a slice / map typed struct field left nil: the library types it maybe[...] (value-dependent, like a nil pointer)
 	Embed bool   `json:"embed,omitempty"` // a struct-typed, non-pointer field is an embedded (anonymous) Go field
 	Tag   int    `json:"tag,omitempty"`   // spelling of the struct tag: 0 plain, 1 padded with spaces, 2 upper-case optional marker, 3 name left to the Go field name (capitalised names only)
 }
@@ -87,7 +88,7 @@ func (v *VT) mtype() string {
 }
 
 func (f *Field) mtype() string {
-	if f.Maybe || f.Nil {
+	if f.Maybe || f.Nil || f.NilC {
 		return "maybe[" + f.V.mtype() + "]"
 	}
 	return f.V.mtype()
@@ -297,7 +298,7 @@ func (v *VT) goValue() reflect.Value {
 func fillStruct(rv reflect.Value, fs []*Field) {
 	for i, f := range fs {
 		fv := rv.Field(i)
-		if f.Nil {
+		if f.Nil || f.NilC {
 			continue
 		}
 		val := f.V.goValue()
@@ -1062,6 +1063,17 @@ func (g *gen7) mutate(a *Env7, kind string) *Env7 {
 				{Name: "id", V: &VT{K: "num", NumKind: "int", Num: float64(n)}},
 				{Name: "p", V: &VT{K: "num", NumKind: "int", Num: float64(n + 1)}, Ptr: true, Nil: nilp},
 			}}
+		}
+		if r.chance(0.35) {
+			// ... or a slice-typed field that is nil in some entries only (no pointer, no
+			// interface anywhere in the Go type)
+			mkEntry = func(nilc bool, n int) *VT {
+				items := &VT{K: "list", Proto: &VT{K: "num", NumKind: "int"}, List: []*VT{{K: "num", NumKind: "int", Num: float64(n)}}}
+				return &VT{K: "obj", Fields: []*Field{
+					{Name: "id", V: &VT{K: "num", NumKind: "int", Num: float64(n)}},
+					{Name: "items", V: items, NilC: nilc},
+				}}
+			}
 		}
 		cont := &VT{K: "map", KeyK: "str", Proto: mkEntry(false, 0)}
 		first := r.chance(0.5)
